@@ -45,6 +45,11 @@ pub fn generate(g: &mut G, _index: u64) -> Scenario {
         if i == 0 && spec.entry == Entry::BuilderSpawn {
             spec.restart = g.pick(&[Restart::Default, Restart::Recreate]);
         }
+        if i > 0 && g.chance(1, 4) {
+            // a child whose `started()` takes a while: broadcasts reach its mailbox, and its parent
+            // may be gone, before it has returned
+            spec.on_start.push(if g.chance(1, 2) { Work::Sleep(g.range(5, 40)) } else { Work::Yield(g.range(1, 3) as u32) });
+        }
         sc.actors.push(spec);
     }
     let mut late: Vec<(usize, usize, ChildKey)> = vec![]; // (parent, child, key) added from a handler
